@@ -215,7 +215,7 @@ func TestCheck(t *testing.T) {
 			caps = append(caps, "deadline reached before crowded ingress pattern "+pt)
 			break
 		}
-		st := explore.Explore(explore.Config{Budgets: crowdBudgets, Deadline: left}, func(c *explore.Ctx) {
+		st := explore.Explore(explore.Config{Budgets: crowdBudgets, Deadline: left, ShardDepth: 2}, func(c *explore.Ctx) {
 			o := ingressBody(t, c, pc, true)
 			if o.fail != nil {
 				r.Report(vf.Violation{Clause: o.fail.Clause, Tags: append(o.tags, "ingress-level", "crowded-height"), Msg: fmt.Sprintf("[ingress level, crowded DA height, chain genesis+%q] %s\n %s", pt, o.fail.Msg, strings.Join(o.trace, " ")), Cost: c.Cost(), History: map[string]any{"Pattern": pt, "Initial": 1, "Ingress": true, "Crowded": true, "Choices": c.Choices()}})
@@ -247,7 +247,7 @@ func TestCheck(t *testing.T) {
 			caps = append(caps, "deadline reached before pattern "+j.pattern)
 			break
 		}
-		st := explore.Explore(explore.Config{Budgets: budgets, Deadline: left}, func(c *explore.Ctx) {
+		st := explore.Explore(explore.Config{Budgets: budgets, Deadline: left, ShardDepth: 2}, func(c *explore.Ctx) {
 			o := body(t, c, pc)
 			if o.fail != nil {
 				r.Report(vf.Violation{Clause: o.fail.Clause, Tags: o.tags, Msg: fmt.Sprintf("%s\n chain: genesis+%q initial=%d\n deliveries: %s", o.fail.Msg, j.pattern, j.initial, strings.Join(o.trace, " ")), Cost: len(o.trace), History: map[string]any{"Pattern": j.pattern, "Initial": j.initial, "Choices": c.Choices()}})
@@ -282,7 +282,7 @@ func TestCheck(t *testing.T) {
 			caps = append(caps, "deadline reached before ingress pattern "+pt)
 			break
 		}
-		st := explore.Explore(explore.Config{Budgets: l2budgets, Deadline: left}, func(c *explore.Ctx) {
+		st := explore.Explore(explore.Config{Budgets: l2budgets, Deadline: left, ShardDepth: 3}, func(c *explore.Ctx) {
 			o := ingressBody(t, c, pc, false)
 			if o.fail != nil {
 				r.Report(vf.Violation{Clause: o.fail.Clause, Tags: append(o.tags, "ingress-level"), Msg: fmt.Sprintf("[ingress level, chain genesis+%q] %s\n %s", pt, o.fail.Msg, strings.Join(o.trace, " ")), Cost: c.Cost(), History: map[string]any{"Pattern": pt, "Initial": 1, "Ingress": true, "Choices": c.Choices()}})
